@@ -606,6 +606,21 @@ class Criterion(Term):
         raise NotImplementedError()
 
 
+def _operand_sql(term: Any, ctx: SqlContext) -> str:
+    """
+    Renders a term that is used as an operand of an arithmetic operator, a comparison or a predicate.  Criteria bind
+    weaker than those operators, so they are enclosed in parentheses.
+    """
+    if isinstance(term, ComplexCriterion):
+        return term.get_sql(ctx.copy(subcriterion=True))
+    sql = term.get_sql(ctx)
+    if isinstance(term, (NullCriterion, ContainsCriterion, RangeCriterion)) or (
+        isinstance(term, BasicCriterion) and isinstance(term.comparator, Comparator)
+    ):
+        return "({})".format(sql)
+    return sql
+
+
 class EmptyCriterion:
     is_aggregate: bool | None = None
     tables_: set["Table"] = set()
@@ -878,8 +893,8 @@ class BasicCriterion(Criterion):
     def get_sql(self, ctx: SqlContext) -> str:
         sql = "{left}{comparator}{right}".format(
             comparator=self.comparator.value,
-            left=self.left.get_sql(ctx),
-            right=self.right.get_sql(ctx),
+            left=_operand_sql(self.left, ctx),
+            right=_operand_sql(self.right, ctx),
         )
         if ctx.with_alias:
             return format_alias_sql(sql, self.alias, ctx)
@@ -931,7 +946,7 @@ class ContainsCriterion(Criterion):
     def get_sql(self, ctx: SqlContext) -> str:
         container_ctx = ctx.copy(subquery=True)
         sql = "{term} {not_}IN {container}".format(
-            term=self.term.get_sql(ctx),
+            term=_operand_sql(self.term, ctx),
             container=self.container.get_sql(container_ctx),
             not_="NOT " if self._is_negated else "",
         )
@@ -980,9 +995,9 @@ class BetweenCriterion(RangeCriterion):
     def get_sql(self, ctx: SqlContext) -> str:
         # FIXME escape
         sql = "{term} BETWEEN {start} AND {end}".format(
-            term=self.term.get_sql(ctx),
-            start=self.start.get_sql(ctx),
-            end=self.end.get_sql(ctx),
+            term=_operand_sql(self.term, ctx),
+            start=_operand_sql(self.start, ctx),
+            end=_operand_sql(self.end, ctx),
         )
         return format_alias_sql(sql, self.alias, ctx)
 
@@ -1059,7 +1074,7 @@ class NullCriterion(Criterion):
 
     def get_sql(self, ctx: SqlContext) -> str:
         sql = "{term} IS NULL".format(
-            term=self.term.get_sql(ctx),
+            term=_operand_sql(self.term, ctx),
         )
         return format_alias_sql(sql, self.alias, ctx)
 
@@ -1187,7 +1202,7 @@ class ArithmeticExpression(Term):
     def get_sql(self, ctx: SqlContext) -> str:
         left_op, right_op = [getattr(side, "operator", None) for side in [self.left, self.right]]
 
-        right_sql = self.right.get_sql(ctx)
+        right_sql = _operand_sql(self.right, ctx)
         if self.right_needs_parens(self.operator, right_op) or (
             # "a"--1 would start a comment
             self.operator == Arithmetic.sub
@@ -1198,7 +1213,7 @@ class ArithmeticExpression(Term):
         arithmetic_sql = "{left}{operator}{right}".format(
             operator=self.operator.value,
             left=("({})" if self.left_needs_parens(self.operator, left_op) else "{}").format(
-                self.left.get_sql(ctx)
+                _operand_sql(self.left, ctx)
             ),
             right=right_sql,
         )
